@@ -461,3 +461,41 @@ Proof.
   intros p Ha o k v0 Hf p2 o2 k2. apply run_op_ext. intro f.
   apply atomicb_sound_pointwise; assumption.
 Qed.
+
+(* ---------------------------------------------------------------- histories on the state itself *)
+(* the history statement without the list form: calls chained through the state function *)
+Definition vcfg (v : vstate) (c : call) : cfg := run_op (fst (fst c)) (snd (fst c)) (snd c) v.
+Definition vstep (v : vstate) (c : call) : vstate := cur (vcfg v c).
+Definition vfailedb (v : vstate) (c : call) : bool :=
+  match failed (vcfg v c) with Some _ => true | None => false end.
+Definition vhist (v : vstate) (cs : list call) : vstate := fold_left vstep cs v.
+Fixpoint vprune (v : vstate) (cs : list call) : list call :=
+  match cs with
+  | [] => []
+  | c :: cs' => if vfailedb v c then vprune v cs' else c :: vprune (vstep v c) cs'
+  end.
+
+Lemma vhist_prune_gen : forall cs v v',
+  (forall f, v f = v' f) ->
+  (forall c, In c cs -> atomicb (call_prog c) = true) ->
+  forall f, vhist v cs f = vhist v' (vprune v' cs) f.
+Proof.
+  induction cs as [|c cs IH]; intros v v' Hv Hall f; [exact (Hv f)|].
+  assert (Hall' : forall c', In c' cs -> atomicb (call_prog c') = true)
+    by (intros c' Hc'; apply Hall; right; exact Hc').
+  pose proof (run_op_ext (fst (fst c)) (snd (fst c)) (snd c) v v' Hv) as E.
+  destruct E as (e1 & _ & _ & _ & _ & e6 & _).
+  cbn [vprune]. unfold vhist at 1. cbn [fold_left].
+  destruct (vfailedb v' c) eqn:Hf.
+  - apply IH; [|exact Hall'].
+    intro g. unfold vstep, vcfg. rewrite <- (Hv g).
+    apply atomicb_sound_pointwise; [exact (Hall c (or_introl eq_refl))|].
+    unfold vfailedb, vcfg in Hf. rewrite e6. intro E0. rewrite E0 in Hf. discriminate Hf.
+  - unfold vhist. cbn [fold_left]. apply IH; [|exact Hall'].
+    intro g. exact (e1 g).
+Qed.
+
+Lemma vhist_prune : forall cs v,
+  (forall c, In c cs -> atomicb (call_prog c) = true) ->
+  forall f, vhist v cs f = vhist v (vprune v cs) f.
+Proof. intros cs v Hall f. apply vhist_prune_gen; [reflexivity | exact Hall]. Qed.
